@@ -333,6 +333,30 @@ func CheckC16(c *Ctx) (*Outcome, error) {
 		return nil, err
 	}
 	found = append(found, fe...)
+	// one output file named through two spellings (a directory symbolic link inside the module)
+	// by converters that agree on the package: whatever goverter makes of the two spellings,
+	// the file carries one header and does not block the next run
+	fl, err := c.RunCases(2, func(i int) ([]*History, error) {
+		spec := &LSpec{UserPkgs: map[string]string{"gen": "gen"}, PkgNames: map[string]string{"a": "a", "b": "b"}, DirLinks: map[string]string{"link": "gen"}}
+		spec.Convs = []LConv{
+			{Dir: "a", File: "conv.go", Kind: "interface", Name: "La", Version: 1, OutFile: "../gen/out.go", OutPkg: importPath("gen")},
+			{Dir: "b", File: "conv.go", Kind: "interface", Name: "Lb", Version: 1, OutFile: "../link/out.go", OutPkg: importPath("gen")},
+		}
+		w := spec.World("c16link")
+		h := &History{World: w, Loc: i}
+		for k := 0; k < 3; k++ {
+			g := &GenSpec{Plan: planIdentity(), Expect: "ok"}
+			if i == 1 {
+				g.BuildTags, g.OutputConstraint = strp("codegen"), strp("!codegen")
+			}
+			h.Ops = append(h.Ops, genOp(g))
+		}
+		return []*History{h}, nil
+	}, JudgeC16, note)
+	if err != nil {
+		return nil, err
+	}
+	found = append(found, fl...)
 	fd, err := c.RunCases(nDrop, func(i int) ([]*History, error) {
 		return []*History{NameThenDrop(c.Rng("c16-name-then-drop", i))}, nil
 	}, JudgeC16, note)
